@@ -1039,3 +1039,80 @@ class Interp:
         if front and self.loop_stack:
             seg = ("seg", ("rev", self.loop_stack[-1]), v, None)
         env[p["lid"]] = ("vec", (seg,) + cur[1]) if front else ("vec", cur[1] + (seg,))
+
+
+# ---------------------------------------------------------------------------- path enumeration over events
+
+def negate(cond):
+    if isinstance(cond, tuple) and cond and cond[0] == "not":
+        return cond[1]
+    return ("not", cond)
+
+
+def expand_else(cond):
+    """('else', prevs) -> tuple of negated previous conditions; other conditions -> (cond,)"""
+    if isinstance(cond, tuple) and cond and cond[0] == "else":
+        return tuple(negate(p) for p in cond[1])
+    if cond is True:
+        return ()
+    return (cond,)
+
+
+def resolve(t, conds):
+    """select the alternative of every phi in term t that is consistent with the path conditions"""
+    if not isinstance(t, tuple) or not t:
+        return t
+    if t[0] == "phi":
+        cs = set(conds)
+        for cond, x in t[1]:
+            need = expand_else(cond)
+            if all(c in cs for c in need):
+                return resolve(x, conds)
+        return tuple(resolve(x, conds) if isinstance(x, tuple) else x for x in t)
+    return tuple(resolve(x, conds) if isinstance(x, tuple) else x for x in t)
+
+
+def event_paths(events, limit=512):
+    """[(conds tuple, [flat events], exit kind | None, exit value)] — every way through an event list
+    (alt = choice, rep kept as one event).  Error exits are included with their kind."""
+    paths = [((), [], None, None)]
+    for e in events:
+        if e[0] != "alt":
+            paths = [(c, evs + [e], x, v) if x is None else (c, evs, x, v) for c, evs, x, v in paths]
+            continue
+        new = []
+        for c, evs, x, v in paths:
+            if x is not None:
+                new.append((c, evs, x, v))
+                continue
+            covered = False
+            for alt in e[1]:
+                cond, sub, xk = alt[0], alt[1], alt[2]
+                xv = alt[3] if len(alt) > 3 else None
+                if cond is True or (isinstance(cond, tuple) and cond and cond[0] == "else"):
+                    covered = True
+                for sc, sevs, sx, sv in event_paths(sub, limit):
+                    new.append((c + expand_else(cond) + sc, evs + sevs, sx if sx is not None else xk, sv if sx is not None else xv))
+            if not covered:
+                # no alternative taken: the conditions of all alternatives are false
+                new.append((c + tuple(negate(alt[0]) for alt in e[1] if alt[0] is not True), evs, None, None))
+        paths = [pp for pp in new if consistent(pp[0])]
+        if len(paths) > limit:
+            raise Unsupported("too many paths")
+    return paths
+
+
+def consistent(conds):
+    cs = set(conds)
+    return not any(negate(c) in cs for c in cs)
+
+
+def value_alternatives(t):
+    """[(conds, value)] — top-level phi alternatives of a value, flattened"""
+    if isinstance(t, tuple) and t and t[0] == "phi":
+        out = []
+        for cond, x in t[1]:
+            for cs, v in value_alternatives(x):
+                out.append((expand_else(cond) + cs, v))
+        return out
+    return [((), t)]
